@@ -66,15 +66,24 @@ HasAllOptions(reply, src, except) ==
      (\E j \in 1 .. Len(reply.opts) : reply.opts[j] = src.opts[i])
 InBudgetDomain(np) == cfg.M >= np + 28 /\ cfg.M <= 1280
 
+\* C11: a block whose offset would need a jump of more than 16 KiB beyond the buffered data is
+\* rejected and leaves the buffered data unchanged
+JumpRejected(pre, req, r) ==
+  LET rb1 == FirstBlock(req, OPT_BLOCK1) IN
+  (rb1.some /\ rb1.v.num # 0 /\ (rb1.v.num + 1) * SizeOf(rb1.v.szx) > BufLen(pre) + MaxReserve) =>
+     (r.out.k = "err" /\ BufOf(r.post) = BufOf(pre))
+
 \* C11, every call
 C11Ok(e, pre, r, hadResp) ==
   /\ r.out.k # "panic"
   /\ OutcomeOk(r.out, hadResp)
   /\ (r.hasPost => GrowthBound(pre, r.post, IF e.op = "ireq" THEN MsgOf(e.req) ELSE [pay |-> << >>]))
-  /\ (r.hasPost => RejectKeeps(pre, r.post, r.out))
+  /\ (r.hasPost /\ e.op = "ireq" => JumpRejected(pre, MsgOf(e.req), r))
 
 \* C12, every call: the reply carries the current request's id and token
 C12Ok(e, r) == (r.out.k = "ok" /\ e.op = "ireq") => ReplyIdentity(MsgOf(e.req), r.resp)
+
+ReqSize(m) == NonPayload(m) + (IF m.pay = << >> THEN 0 ELSE 1 + Len(m.pay))
 
 \* C09 on intercept_request
 C09Ok(e, pre, x, r) ==
@@ -87,14 +96,16 @@ C09Ok(e, pre, x, r) ==
        THEN \* non-final block: 2.31, not passed on, Block1 echoing the offset, size no larger than the client's
             /\ r.out = OkR(TRUE) /\ r.resp.some /\ r.resp.v.code = CODE_CONTINUE
             /\ ack.some /\ SizeOf(ack.v.szx) <= SizeOf(rb1.v.szx)
-            /\ ack.v.num * SizeOf(ack.v.szx) = rb1.v.num * SizeOf(rb1.v.szx)
+            \* "echoing its number": pinned for budgets that admit the client's block size (C09's quantifier)
+            /\ (NonPayload(req) + BlockOptionsMaxLength + SizeOf(rb1.v.szx) <= cfg.M => ack.v.num = rb1.v.num /\ ack.v.szx = rb1.v.szx)
        ELSE \* final block: the application receives the complete body; the reply acknowledges the block
             /\ r.out.k = "ok" /\ r.reqpay = x.reqpay /\ ack.some
             /\ (x.out = OkR(FALSE) => r.out = OkR(FALSE))
   ELSE \* no Block1 option: the 4.13 rule is three-valued
        LET is413 == r.out = OkR(TRUE) /\ r.resp.some /\ r.resp.v.code = CODE_TOO_LARGE IN
-       /\ (WireLen(req) > cfg.M /\ InBudgetDomain(NonPayload(req)) => is413 /\ ack.some)
-       /\ (WireLen(req) + 32 <= cfg.M => ~is413)
+       \* size of the request as received: its stored payload counts whatever the code
+       /\ (ReqSize(req) > cfg.M /\ InBudgetDomain(NonPayload(req)) => is413 /\ ack.some)
+       /\ (ReqSize(req) + 32 <= cfg.M => ~is413)
 
 \* C08 on intercept_request: follow-up blocks are served from the cache
 C08ReqOk(e, pre, x, r) ==
@@ -129,7 +140,9 @@ RespOk(e, pre, x, r) ==
                /\ WireLen(r.resp.v) <= cfg.M
                /\ ((pre.b2.some /\ pre.b2.v.szx <= 6 /\ NonPayload(app.v) + 6 + SizeOf(pre.b2.v.szx) + 32 <= cfg.M)
                       => rb.v.szx = pre.b2.v.szx)
-               /\ rb.v.num * sz = off
+               \* C08 quantifies over transfers that start at block 0; a first request naming a
+               \* later block is outside it (see the observation in MC_Negotiate)
+               /\ (off = 0 => rb.v.num = 0)
                /\ r.resp.v.pay = Chunk(body, rb.v.num, sz)
                /\ rb.v.more = MoreAfter(body, rb.v.num, sz)
                /\ HasAllOptions(r.resp.v, app.v, { OPT_BLOCK2 })
@@ -200,8 +213,10 @@ StepCall(e) ==
       r == Recorded(e, k)
       pres == PreStates(k, e)
       exact == { p \in pres : Exact(Expected(e, p), r) } IN
-  IF exact # {}
-  THEN LET p == CHOOSE p \in exact : TRUE
+  \* equality with the code-shaped operators only tracks the state; the predicates the
+  \* properties pin are evaluated on every call and decide
+  IF exact # {} /\ (\E p \in exact : Violated(e, p, Expected(e, p), r) = {})
+  THEN LET p == CHOOSE p \in exact : Violated(e, p, Expected(e, p), r) = {}
            x == Expected(e, p) IN
        /\ cache' = Touch(k, x.st, e, NewDone1(e, x))
        /\ UNCHANGED << drift, live >>
@@ -213,7 +228,7 @@ StepCall(e) ==
           ELSE /\ kfs' = kfs
                /\ IF OthersOk(e, k) THEN UNCHANGED bad
                   ELSE RejectEv({"C12", "C20"}, "state of another key changed, or an entry was kept/purged against the configured expiry")
-  ELSE LET wrong == { p \in WrongLiveness(k, e) : Exact(Expected(e, p), r) }
+  ELSE LET wrong == { p \in WrongLiveness(k, e) \ pres : Exact(Expected(e, p), r) }
            p == CHOOSE p \in pres : TRUE
            x == Expected(e, p)
            v == UNION { Violated(e, q, Expected(e, q), r) : q \in pres }
